@@ -530,6 +530,19 @@ pub fn gen_ops(cfg: &Cfg, double: bool, m: &Model, back_offered: bool, out: &mut
             }
             // half as long, disjoint
             out.push(Op::Append((0..(n as u32 / 2).max(1)).map(|i| (absent + 1 + i, 0, if i % 2 == 0 { lo } else { hi })).collect()));
+            // several moved elements with GRADED priorities beyond both ends of the receiver (each new
+            // one more extreme than the last, each less extreme, zigzag): a sift of one moved element
+            // that looks at not yet sifted ones only goes wrong for such relations
+            for m in [2u32, 3, 4, (n as u32 / 2).max(2)] {
+                let below = |i: u32| lo.saturating_sub(1 + i as i32);
+                let above = |i: u32| hi.saturating_add(1 + i as i32);
+                out.push(Op::Append((0..m).map(|i| (absent + 1 + i, 0, below(i))).collect()));
+                out.push(Op::Append((0..m).map(|i| (absent + 1 + i, 0, below(m - 1 - i))).collect()));
+                out.push(Op::Append((0..m).map(|i| (absent + 1 + i, 0, above(i))).collect()));
+                out.push(Op::Append((0..m).map(|i| (absent + 1 + i, 0, above(m - 1 - i))).collect()));
+                out.push(Op::Append((0..m).map(|i| (absent + 1 + i, 0, if i % 2 == 0 { below(i) } else { above(i) })).collect()));
+                out.push(Op::Append((0..m).map(|i| (absent + 1 + i, 0, if i % 2 == 1 { below(m - i) } else { above(m - i) })).collect()));
+            }
         }
     } else if a & A_APPEND != 0 {
         out.push(Op::Append(vec![]));
@@ -876,6 +889,16 @@ pub fn gen_ops_large(cfg: &Cfg, double: bool, m: &Model, snap: &Snap, back_offer
         }
         // half as long, clashing with every other stored item
         out.push(Op::Append(present.iter().step_by(2).map(|&k| (k, 0, mirror(k))).collect()));
+        // several moved elements with graded priorities beyond both ends of the receiver
+        for m in [2u32, 3, 4, 9, (n as u32 / 2).max(2)] {
+            let below = |i: u32| lo.saturating_sub(1 + i as i32);
+            let above = |i: u32| hi.saturating_add(1 + i as i32);
+            out.push(Op::Append((0..m).map(|i| (absent + 1 + i, 0, below(i))).collect()));
+            out.push(Op::Append((0..m).map(|i| (absent + 1 + i, 0, below(m - 1 - i))).collect()));
+            out.push(Op::Append((0..m).map(|i| (absent + 1 + i, 0, above(i))).collect()));
+            out.push(Op::Append((0..m).map(|i| (absent + 1 + i, 0, above(m - 1 - i))).collect()));
+            out.push(Op::Append((0..m).map(|i| (absent + 1 + i, 0, if i % 2 == 0 { below(i) } else { above(i) })).collect()));
+        }
     }
     if a & A_CLEAR_DRAIN != 0 {
         out.push(Op::Clear);
@@ -1027,6 +1050,28 @@ pub fn apply<H: HB>(q: &AnyQ<H>, unordered: bool, m: &Model, op: &Op, universe: 
             }
             Ok(Err(e)) => return Err(format!("on a queue with spare capacity (reserve(64) first): {e}")),
             Err(e) => return Err(format!("{} on a queue with spare capacity (reserve(64) first) panicked: {}", op_name(op), panic_text(&e))),
+        }
+    }
+    // a second twin with a LARGE reservation for the operations where a policy keyed on the capacity
+    // ("release oversized tables", "cheap path when the table is sparse") is plausible; on small
+    // queues only, where the allocation dominates the cost
+    if ROOMY_TWIN.load(AO::Relaxed) && m.len() <= 4 && matches!(op, Op::Clear | Op::Drain { .. } | Op::Retain(_) | Op::RetainMut(..) | Op::Append(_) | Op::CloneFrom(_)) {
+        let mut un2 = unordered;
+        let mut m2 = m.clone();
+        let res = catch_unwind(AssertUnwindSafe(|| {
+            let mut t = q.clone();
+            with_q!(&mut t, x => x.q_reserve(70_000));
+            let r = with_q!(&mut t, x => step(x, op, &mut m2, &mut un2));
+            r.map(|r| (r, t.snap()))
+        }));
+        match res {
+            Ok(Ok((r2, s2))) => {
+                if r2 != ret || s2 != snap {
+                    return Err(format!("{} behaves differently on a queue with a large reservation (reserve(70000) first): returns {r2:?} and leaves {s2:?}; on the tightly sized queue it returns {ret:?} and leaves {snap:?}", op_name(op)));
+                }
+            }
+            Ok(Err(e)) => return Err(format!("on a queue with a large reservation (reserve(70000) first): {e}")),
+            Err(e) => return Err(format!("{} on a queue with a large reservation (reserve(70000) first) panicked: {}", op_name(op), panic_text(&e))),
         }
     }
     Ok(Applied { q: c, unordered: un, ret, snap, model: mm, cmps })
